@@ -29,7 +29,8 @@ def startObs (s : St) (asg : List (Nat × List Int)) : List Ob :=
 
 def expectedSig (s : St) : Ev → List Ob
   | .start => if s.started then [] else lookupSig s
-  | .fire id =>
+  | .fire id hbNext =>
+    if hbNext.any (· < 0) then [] else
     match s.timers.filter (·.id == id) with
     | [] => []
     | t :: _ =>
@@ -39,8 +40,10 @@ def expectedSig (s : St) : Ev → List Ob
       | _ => lookupSig s
   | .coordDone .ok => if s.jpc != .coordLookup then [] else [.loadMeta]
   | .metaDone .ok =>
-    if s.jpc != .metaLoad then [] else if s.stopping then [] else
-    if (heldCids s).isEmpty then [.join s.member] else []
+    if s.jpc != .metaLoad then [] else if s.stopping then [] else if s.stopDraining then [] else
+    if (heldCids s).isEmpty then [.join s.member] else
+    -- every shutdown() raised, or one returned a failed Deferred: the drain is over at once
+    if drainFails s || (beginDrain s).2.2.pending.isEmpty then [.join s.member] else []
   | .joinDone (.ok m g leader _) =>
     if s.jpc != .join then [] else if s.stopping then [] else
     if leader then [.loadParts] else [.sync (some g) m 0]
@@ -113,9 +116,26 @@ theorem step_sig (cfg : Cfg) (s : St) (e : Ev) : sigObs (step cfg s e).2 = expec
         · unfold prepare
           have : heldCids { s with coordBroker := true } = heldCids s := rfl
           rw [this]
+          simp only []
+          split
+          · rfl
           split
           · rw [afterPrepare_sig]; simp_all
-          · exact sig_bg (BG_map_shutdown _)
+          · have hd : drainFails { s with coordBroker := true } = drainFails s := rfl
+            have hb : beginDrain { s with coordBroker := true } = ({ (beginDrain s).1 with coordBroker := true }, (beginDrain s).2) := rfl
+            rw [hd, hb]
+            simp only []
+            split
+            · simp only [andThen_snd, sig_append]
+              rw [sig_bg (beginDrain_bg s), sig_bg (drainDone_bg _ _ _), afterPrepare_sig]
+              simp only [andThen_fst]
+              have hm : ∀ d b, (drainDone { (beginDrain s).1 with coordBroker := true } d b).1.member = s.member := by
+                intro d b; unfold drainDone; split <;> rfl
+              have hst : ∀ d b, (drainDone { (beginDrain s).1 with coordBroker := true } d b).1.stopping = s.stopping := by
+                intro d b; unfold drainDone; split <;> rfl
+              simp only [hm, hst]
+              simp_all
+            · exact sig_bg (beginDrain_bg s)
   | joinDone r =>
     simp only [step]
     split
@@ -198,7 +218,7 @@ theorem step_sig (cfg : Cfg) (s : St) (e : Ev) : sigObs (step cfg s e).2 = expec
           · rfl
           · split
             · rfl
-            · exact sig_bg (BG_andThen (drainDone_bg _ _ _) (fun _ => stopCall_bg _ _ _ _))
+            · exact sig_bg (BG_andThen (drainDone_bg _ _ _) (fun _ => stopLoop_bg _ _ _ _))
         · rfl
     · simp [sigObs, bg]
   | consumerErr cid e =>
@@ -208,8 +228,13 @@ theorem step_sig (cfg : Cfg) (s : St) (e : Ev) : sigObs (step cfg s e).2 = expec
       · rfl
       · exact sig_bg (rejoinAfterError_bg _ _ _)
     · simp [sigObs, bg]
-  | fire id =>
+  | consumerQuirk cid q =>
     simp only [step, expectedSig]
+    split <;> simp [sigObs, bg]
+  | fire id hbNext =>
+    simp only [step, expectedSig]
+    split
+    · simp [sigObs, bg]
     cases hf : s.timers.filter (·.id == id) with
     | nil => simp [sigObs, bg]
     | cons t rest =>
@@ -223,10 +248,10 @@ theorem step_sig (cfg : Cfg) (s : St) (e : Ev) : sigObs (step cfg s e).2 = expec
           simp only [andThen_snd, sig_append]
           split
           · split
-            · rw [sig_bg (hbSchedule_bg _ _)]; rfl
+            · rw [sig_bg (addTimer_bg _ _ _)]; rfl
             · rfl
           · split
-            · rw [sig_bg (hbSchedule_bg _ _)]; simp [sigObs, bg]
+            · rw [sig_bg (addTimer_bg _ _ _)]; simp [sigObs, bg]
             · simp [sigObs, bg]
   | advance dt =>
     simp only [step, expectedSig]
